@@ -18,7 +18,13 @@ open StunVerif StunVerif.Agent
     (so early and repeated polls are harmless) -/
 theorem req_early (r : Req) (now d : Time) (hc : r.recvCancelled = false)
     (hd : r.deadline = some d) (h : now < d) : reqPoll r now = (r, .waitUntil d) := by
-  sorry
+  have hl : r.lastSend.isSome = true := by
+    cases hl : r.lastSend with
+    | none => simp [Req.deadline, hl] at hd
+    | some _ => rfl
+  have h2 := (reqPoll_wait_iff r now d hl).mpr ⟨hc, hd, h⟩
+  have h1 := reqPoll_wait_fst r now d h2
+  exact Prod.ext h1 h2
 
 /-- from its deadline on, a request that still has retransmissions left is handed out again:
     the k-th retransmission becomes due exactly `timeouts[k-1]` after the previous transmission was
@@ -27,14 +33,15 @@ theorem req_retransmit (r : Req) (now h : Time) (hc : r.recvCancelled = false)
     (hs : r.sendCancelled = false) (hl : r.lastSend = some h) (hk : r.timeoutI < r.timeouts.length)
     (hd : h + msNs (r.timeouts.getD r.timeoutI 0) ≤ now) :
     reqPoll r now = ({ r with timeoutI := r.timeoutI + 1, lastSend := some now }, .sendData) := by
-  sorry
+  rw [reqPoll_some r now h hc hl, if_neg (Nat.not_le.mpr hk), if_neg (Nat.not_lt.mpr hd)]
+  simp [hs]
 
 /-- after the last retransmission the request times out exactly `lastRto` after the final
     transmission (and not before: `req_early`) -/
 theorem req_timeout (r : Req) (now h : Time) (hc : r.recvCancelled = false)
     (hl : r.lastSend = some h) (hk : r.timeouts.length ≤ r.timeoutI)
     (hd : h + msNs r.lastRto ≤ now) : reqPoll r now = (r, .timedOut) := by
-  sorry
+  rw [reqPoll_some r now h hc hl, if_pos hk, if_neg (Nat.not_lt.mpr hd)]
 
 /-- `configure_timeout` on a UDP request: `retransmits` intervals, the k-th being
     `initial_rto * 2^k`, and the given last timeout -/
@@ -42,14 +49,17 @@ theorem configure_udp (r : Req) (rto n last : Nat) :
     (configureReq .udp r rto n last).timeouts.length = n ∧
     (∀ k, k < n → (configureReq .udp r rto n last).timeouts.getD k 0 = rto * 2 ^ k) ∧
     (configureReq .udp r rto n last).lastRto = last := by
-  sorry
+  refine ⟨by simp [configureReq], fun k hk => ?_, rfl⟩
+  exact getD_map_range _ n k hk
 
 /-- `configure_timeout` on a TCP request: no retransmission, one timeout equal to the sum of all
     the UDP intervals, `rto * (2^n - 1) + last` -/
 theorem configure_tcp (r : Req) (rto n last : Nat) :
     (configureReq .tcp r rto n last).timeouts = [] ∧
     (configureReq .tcp r rto n last).lastRto = last + rto * (2 ^ n - 1) := by
-  sorry
+  refine ⟨rfl, ?_⟩
+  show last + _ = _
+  rw [geom_sum]
 
 /-- exactly `retransmits` retransmissions, whatever the poll schedule (early, late, repeated, any
     order of instants): a request that has been transmitted once and has `n` intervals is handed out
@@ -60,7 +70,7 @@ theorem retransmit_count (r : Req) (nows : List Time) (hl : r.lastSend.isSome = 
     ((reqPolls r nows).filter (· = .sendData)).length ≤ r.timeouts.length - r.timeoutI ∧
     ∀ i, (reqPolls r nows)[i]? = some .timedOut →
       (((reqPolls r nows).take i).filter (· = .sendData)).length = r.timeouts.length - r.timeoutI := by
-  sorry
+  exact Agent.retransmit_count r nows hl hs hk
 
 /-- polled exactly when due, a UDP request configured with (`rto`, `n`, `last`) and first sent at
     `t0` is retransmitted at `t0 + rto*(2^k - 1)` for k = 1..n and times out at
@@ -71,7 +81,7 @@ theorem on_time_schedule (r0 : Req) (rto n last : Nat) (t0 : Time)
     let st (k : Nat) : Req := { r with timeoutI := k, lastSend := some (t0 + msNs (rto * (2 ^ k - 1))) }
     (∀ k, k < n → reqPoll (st k) (t0 + msNs (rto * (2 ^ (k + 1) - 1))) = (st (k + 1), .sendData)) ∧
     reqPoll (st n) (t0 + msNs (rto * (2 ^ n - 1)) + msNs last) = (st n, .timedOut) := by
-  sorry
+  exact Agent.on_time_schedule r0 rto n last t0 hc hs
 
 /-- the defaults of `StunRequestState::new` are the RFC values, in the model and in the source as
     translated on this run -/
@@ -96,7 +106,7 @@ theorem default_udp_schedule (tid : Nat) (b : Bytes) (to loc : SockAddr) :
        .poll (msNs 39499) none, .poll (msNs 39500) none]).map (·.2) =
     [tx, .waitUntil (msNs 500), .waitUntil (msNs 500), tx, tx, tx, tx, .waitUntil (msNs 15500), tx, tx,
      .waitUntil (msNs 39500), .timedOut tid] := by
-  sorry
+  exact Agent.default_udp_schedule tid b to loc
 
 /-- default TCP schedule: one transmission, timeout at 39.5 s -/
 theorem default_tcp_schedule (tid : Nat) (b : Bytes) (to loc : SockAddr) :
@@ -104,13 +114,13 @@ theorem default_tcp_schedule (tid : Nat) (b : Bytes) (to loc : SockAddr) :
       [.sendReq tid b false to 0, .poll 0 none, .poll (msNs 39499) none, .poll (msNs 39500) none]).map (·.2) =
     [.transmit (some tid) ⟨b, .tcp, loc, to⟩, .waitUntil (msNs 39500), .waitUntil (msNs 39500),
      .timedOut tid] := by
-  sorry
+  exact Agent.default_tcp_schedule tid b to loc
 
 /-! ### the agent -/
 
 /-- every outstanding request of a reachable agent has been transmitted -/
 theorem all_sent (s : State) (hr : Reachable s) : AllSent s := by
-  sorry
+  exact allSent_of_reachable s hr
 
 /-- `WaitUntil(t)` with transactions outstanding: `t` is the earliest deadline of any of them,
     nothing changed, and `t` lies in the future -/
@@ -118,14 +128,20 @@ theorem wait_is_min_deadline (s : State) (hr : Reachable s) (now t : Time) (pick
     (hne : s.out ≠ []) (h : (step s (.poll now pick)).2 = .waitUntil t) :
     (step s (.poll now pick)).1 = s ∧ now < t ∧
     (∃ p ∈ s.out, p.2.deadline = some t) ∧ (∀ p ∈ s.out, ∃ d, p.2.deadline = some d ∧ t ≤ d) := by
-  sorry
+  obtain ⟨h1, h2, h3, h4⟩ := poll_wait_spec s (keysNodup_of_reachable_time s hr)
+    (allSent_of_reachable s hr) now t pick hne h
+  refine ⟨?_, h2, h3, fun p hp => (h4 p hp).2⟩
+  show (agentPoll s now pick).1 = s
+  rw [h1]
 
 /-- polling earlier than `t` yields no event and the same `t` -/
 theorem wait_stable (s : State) (hr : Reachable s) (now t : Time) (pick : Option Nat)
     (hne : s.out ≠ []) (h : (step s (.poll now pick)).2 = .waitUntil t)
     (now' : Time) (pick' : Option Nat) (h1 : now ≤ now') (h2 : now' < t) :
     step s (.poll now' pick') = (s, .waitUntil t) := by
-  sorry
+  have _ := h1
+  exact poll_wait_stable s (keysNodup_of_reachable_time s hr) (allSent_of_reachable s hr) now t pick hne h
+    now' pick' h2
 
 /-- polling at `t` yields an event: a transmission, a time-out or a cancellation -/
 theorem wait_then_event (s : State) (hr : Reachable s) (now t : Time) (pick : Option Nat)
@@ -135,25 +151,29 @@ theorem wait_then_event (s : State) (hr : Reachable s) (now t : Time) (pick : Op
     | .timedOut _ => True
     | .cancelled _ => True
     | _ => False := by
-  sorry
+  exact poll_wait_then_event s (keysNodup_of_reachable_time s hr) (allSent_of_reachable s hr) now t pick
+    hne h pick'
 
 /-- with nothing outstanding the agent asks to be polled again in an hour (no deadline exists) -/
 theorem idle_wait (s : State) (now : Time) (pick : Option Nat) (h : s.out = []) :
     step s (.poll now pick) = (s, .waitUntil (now + msNs (Gen.idleWaitSecs * 1000))) := by
-  sorry
+  exact poll_idle s now pick h
 
 /-- after `cancel_retransmissions` nothing further is transmitted for that transaction: as long as
     the request is the same outstanding one, no call produces a transmission for it, and the flag
     stays set -/
 theorem cancel_rtx_sets (s : State) (tid : Nat) (r : Req) (h : lookup s.out tid = some r) :
     ∃ r', lookup (step s (.cancelRtx tid)).1.out tid = some r' ∧ r'.sendCancelled = true := by
-  sorry
+  refine ⟨{ r with sendCancelled := true }, ?_, rfl⟩
+  show lookup (update s.out tid fun r => { r with sendCancelled := true }) tid = _
+  rw [lookup_update_self, h]
+  rfl
 
 theorem cancel_rtx_silent (s : State) (tid : Nat) (r : Req) (h : lookup s.out tid = some r)
     (hc : r.sendCancelled = true) (op : Op) :
     (∀ tx, (step s op).2 ≠ .transmit (some tid) tx) ∧
     (∀ r', lookup (step s op).1.out tid = some r' → r'.sendCancelled = true) := by
-  sorry
+  exact Agent.cancel_rtx_silent s tid r h hc op
 
 /-! Non-vacuity: two overlapping requests with different configurations; the wake-up is the minimum. -/
 example :
